@@ -284,6 +284,17 @@ class TrLife(D.TrProg):
             return (f"({a} {'+' if isinstance(node.op, ast.Add) else '-'} {b})", 'int')
         if isinstance(node, (ast.SetComp, ast.ListComp)):
             return self.comprehension(node, env)
+        # <list>[i][j] with constant indices: a declared (pure) primitive per (type, i, j)
+        if (isinstance(node, ast.Subscript) and isinstance(node.value, ast.Subscript)
+                and isinstance(node.slice, ast.Constant) and type(node.slice.value) is int
+                and isinstance(node.value.slice, ast.Constant) and type(node.value.slice.value) is int
+                and self.t.get('subscripts')):
+            base, bty = self.expr(node.value.value, env)
+            key = (bty, node.value.slice.value, node.slice.value)
+            if key not in self.t['subscripts']:
+                raise self.U(f'subscript {ast.unparse(node)[:60]} of a value of type {bty}')
+            lean, ty = self.t['subscripts'][key]
+            return (lean.format(P=P, x=base), ty)
         txt = ast.unparse(node)
         if txt in self.t.get('atoms', {}):
             if ' st' in self.t['atoms'][txt][0] + ' ':
@@ -297,7 +308,31 @@ class TrLife(D.TrProg):
         res = super().expr(node, env)
         return res
 
+    def comprehension_items(self, node, env):
+        """`[y for x, y, z in <bttlist>]`: the items are taken apart by the declared `__item<i>` calls (as in a
+        `for x, y, z in …` loop); only a list of tasks (= the items themselves, type btt) is supported"""
+        g = node.generators[0]
+        names = [e.id if isinstance(e, ast.Name) else None for e in g.target.elts]
+        if None in names or len(set(names)) != len(names) or g.ifs or not isinstance(node, ast.ListComp):
+            raise self.U('comprehension ' + ast.unparse(node)[:60])
+        src, sty = self.expr(g.iter, env)
+        if sty != 'bttlist':
+            raise self.U('comprehension with a tuple target over ' + sty)
+        if not (isinstance(node.elt, ast.Name) and node.elt.id in names):
+            raise self.U('comprehension element ' + ast.unparse(node.elt)[:60])
+        i = names.index(node.elt.id)
+        it = 'it_'
+        for (fname, pats, lean, rty) in self.t.get('calls', ()):
+            if fname == f'__item{i}' and list(pats) == [('ty', 'btt')]:
+                if rty != 'btt':
+                    raise self.U(f'comprehension: list of <{rty}>')
+                return (f'(List.map (fun {it} => {lean.format(P=self.P, a=[it])}) {src})', 'bttlist')
+        raise self.U(f'comprehension: item {i} of a (block, task, timeout) tuple')
+
     def comprehension(self, node, env):
+        if (len(node.generators) == 1 and not node.generators[0].is_async
+                and isinstance(node.generators[0].target, ast.Tuple)):
+            return self.comprehension_items(node, env)
         if len(node.generators) != 1 or node.generators[0].is_async or not isinstance(node.generators[0].target, ast.Name):
             raise self.U('comprehension ' + ast.unparse(node)[:60])
         g = node.generators[0]
@@ -401,6 +436,23 @@ class TrLife(D.TrProg):
             for pat, lean, ty in self.t.get('effect_texts', ()):
                 if pat == txt:
                     return (lean.format(P=P), ty)
+            # a declared call with typed positional and typed keyword arguments: asyncio.wait(<tasks>, timeout=<int>)
+            p = D.path_or_none(node.func)
+            for (cp, postys, kwtys, lean, rty) in self.t.get('kw_effects', ()):
+                if cp == p:
+                    kws = {k.arg: k.value for k in node.keywords}
+                    if len(node.args) != len(postys) or set(kws) != set(kwtys) or len(kws) != len(node.keywords):
+                        raise self.U(f'{cp}(...): unexpected arguments')
+                    args = [self.expr(a, env) for a in node.args]
+                    if [ty for _, ty in args] != list(postys):
+                        raise self.U(f'{cp}(...): argument types {[ty for _, ty in args]}')
+                    kw = {}
+                    for name, want in kwtys.items():
+                        t, ty = self.expr(kws[name], env)
+                        if ty != want:
+                            raise self.U(f'{cp}(..., {name}=<{ty}>)')
+                        kw[name] = t
+                    return (lean.format(P=P, a=[t for t, _ in args], kw=kw), rty)
         return super().effect(node, env)
 
     @staticmethod
@@ -579,6 +631,8 @@ structure RunTasksPrims (σ ε β κ : Type) where
   taskDone : σ → κ → Bool               -- `task.done()`
   waitFor : κ → Int → M σ ε Unit Unit   -- `await asyncio.wait_for(task, <seconds>)`
   cancelTask : κ → M σ ε Unit Unit      -- `task.cancel()`
+  headTimeout : List κ → Int            -- `btt_list[0][2]`: the time-out of the first item (the list is not empty)
+  waitAll : List κ → Int → M σ ε Unit Unit    -- `await asyncio.wait(<tasks>, timeout=<seconds>)`
   taskCancelled : σ → κ → Bool          -- `task.cancelled()`
   taskException : κ → M σ ε Unit (Option ε)   -- `task.exception()`
 
@@ -651,7 +705,7 @@ def run_tasks_target(api):
         P='P', prims='RunTasksPrims σ ε β κ', tyvars='{σ ε β κ : Type}', ret_lean='Unit',
         args=[('btt_list', 'bttlist')], ret_type='unit',
         ignore_re=(r'blk_\d+\.log_\w+', r'_logger\.\w+'),
-        awaited=('asyncio.wait_for',), hoist=('get_time',),
+        awaited=('asyncio.wait_for', 'asyncio.wait'), hoist=('get_time',),
         atoms={'asyncio.get_running_loop().time': ('()', 'clockfn')},
         call_texts=[('sorted(btt_list, key=operator.itemgetter(2), reverse=True)', '{P}.sortDesc btt_list', 'bttlist')],
         calls=[('__item0', [('ty', 'btt')], '()', 'unit'),
@@ -659,6 +713,8 @@ def run_tasks_target(api):
                ('__item2', [('ty', 'btt')], '{P}.timeoutOf {a[0]}', 'int')],
         var_calls=[('clockfn', [], '!{P}.getTime', 'int')],
         effects=[('asyncio.wait_for', [('ty', 'btt'), ('ty', 'int')], '{P}.waitFor {a[0]} {a[1]}', 'unit')],
+        kw_effects=[('asyncio.wait', ['bttlist'], {'timeout': 'int'}, '{P}.waitAll {a[0]} {kw[timeout]}', 'unit')],
+        subscripts={('bttlist', 0, 2): ('({P}.headTimeout {x})', 'int')},
         methods=[('btt', 'done', [], '{P}.taskDone st {x}', 'bool'),
                  ('btt', 'cancelled', [], '{P}.taskCancelled st {x}', 'bool')],
         method_effects=[('btt', 'cancel', [], '{P}.cancelTask {x}', 'unit'),
